@@ -808,14 +808,18 @@ theorem o01_createClassString_safe (hG : o01_Good P) (hF : o01_Flush P) (env : E
       refine o01_createClassMethodString_safe hG hF env _ _ _ _ (fun m hm hs => ?_)
       have := List.all_eq_true.1 hmeth m hm
       simpa [o01_notSkipped_public hs] using this
-    have h7 : (!c.superclasses.isEmpty && !c.isAbstract) = true → ∀ ad,
+    have h7 : (!c.renderedSupers.isEmpty && !c.isAbstract) = true → ∀ ad,
         o01_Safe P (superclassesG env (fun sc => createInternalClassString env n sc (indent ++ indentation) ad)
-          c.superclasses) := by
+          c.renderedSupers) := by
       intro hc ad
       simp only [Bool.and_eq_true, Bool.not_eq_true'] at hc
-      simp only [hc.1, hc.2, Bool.false_or] at hsup
+      have hne : c.superclasses.isEmpty = false := by
+        cases hs : c.superclasses with
+        | nil => simp [Class.renderedSupers, hs] at hc
+        | cons _ _ => rfl
+      simp only [hne, hc.2, Bool.false_or] at hsup
       refine o01_superclassesG_safe hG env _ _ (fun sc hsc => ?_)
-      have := List.all_eq_true.1 hsup sc hsc
+      have := List.all_eq_true.1 hsup sc (List.mem_filter.mp hsc).1
       split
       · rename_i hp
         rw [if_pos hp] at this
